@@ -130,9 +130,24 @@ static void gen_obs(opcase_t *c, rng_t *r, int maxdim) {
         c->nontrivial = 1;
       } else
         snprintf(c->pcls, sizeof c->pcls, "regionzero");
-    } else if (mode < 7) {
-      c->in[0] = gen_mat(r, m, n, PAT_SPARSE1);
-      snprintf(c->pcls, sizeof c->pcls, "sparse");
+    } else if (mode < 8) {
+      /* the region is zero up to some word tw; in word tw several rows have entries with different lowest bits
+         (the search must compare rows, it may not stop at the first row that has a bit at the start offset) */
+      c->in[0] = gen_mat(r, m, n, PAT_DENSE);
+      for (int i = sr; i < m; i++)
+        for (int j = sc; j < n; j++) RM(c->in[0], i, j) = 0;
+      int w0 = sc / 64, w1 = (n - 1) / 64, tw = rng_int(r, w0, w1);
+      int lo = tw * 64 > sc ? tw * 64 : sc, hi = (tw * 64 + 63) < n - 1 ? tw * 64 + 63 : n - 1;
+      int nrows_set = rng_int(r, 1, m - sr < 6 ? m - sr : 6);
+      for (int t = 0; t < nrows_set; t++) {
+        int i = rng_int(r, sr, m - 1), nb = rng_int(r, 1, 3);
+        for (int b = 0; b < nb; b++) RM(c->in[0], i, rng_chance(r, 1, 3) ? lo + (sc % 64 < hi - lo ? sc % 64 : 0) : rng_int(r, lo, hi)) = 1;
+      }
+      /* later words may hold anything */
+      for (int i = sr; i < m; i++)
+        for (int j = hi + 1; j < n; j++) RM(c->in[0], i, j) = (rng_u64(r) & 3) == 0;
+      snprintf(c->pcls, sizeof c->pcls, "%s", tw == w0 ? "firstword" : tw == w1 ? "lastword" : "midword");
+      c->nontrivial = 1;
     } else {
       c->in[0] = gen_mat(r, m, n, gen_pat(r));
       snprintf(c->pcls, sizeof c->pcls, "pattern");
